@@ -199,6 +199,10 @@ func gen(g *common.Gen) {
 			g.Op("faces,%d", r.Range(2, 8))
 			g.Stat("op-face-table-round")
 		}
+		if i%8 == 3 {
+			g.Op("latereg,%s", common.NameText(common.Pick(r, u)))
+			g.Stat("op-late-register")
+		}
 		if i == 5 || i == 85 {
 			// one RIB operation over many prefixes (a few, and more than 256) is one step towards lookups
 			g.Op("atomic,%d", common.Pick(r, []int{3, 40}))
@@ -638,6 +642,33 @@ func exec1(op string) string {
 			rib.RemoveRouteEnc(nm, uint64(32), 0)
 		}
 		return fmt.Sprintf("n=%d torn=%d", n, torn)
+	}
+	if strings.HasPrefix(op, "latereg,") {
+		// latereg,<name>: a face comes up, sends `rib/register <name>` for itself (no FaceId) and goes down; the
+		// management thread gets to the command only after the teardown has cleaned the tables. A route to a face
+		// that no longer exists must not stay behind (no later operation would ever remove it)
+		ls := face.MakeNDNLPLinkService(face.VerifNewTransport(1500, defn.NonLocal), face.MakeNDNLPLinkServiceOptions())
+		face.FaceTable.Add(ls)
+		id := ls.FaceID()
+		face.FaceTable.Remove(id)
+		ribCommand("register", &mg.ControlArgs{Name: common.ParseNameText(op[8:])}, id)
+		left := 0
+		for _, e := range rib.GetAllEntries() {
+			for _, rt := range e.GetRoutes() {
+				if rt.FaceID == id {
+					left++
+				}
+			}
+		}
+		for _, e := range table.FibStrategyTable.GetAllFIBEntries() {
+			for _, nh := range e.GetNextHops() {
+				if nh.Nexthop == id {
+					left++
+				}
+			}
+		}
+		rib.CleanUpFace(id) // whatever stayed behind must not disturb the rest of the history
+		return fmt.Sprintf("routes-left=%d", left)
 	}
 	if strings.HasPrefix(op, "faces,") {
 		// K goroutines register one new face each in the global face table at the same moment;
